@@ -122,6 +122,13 @@ func TestC13(t *testing.T) {
 			var pan any
 			for r := 0; r < 2 && pan == nil; r++ {
 				out := make([]byte, n)
+				if r == 1 {
+					// the previous content of the caller's buffer is not an input:
+					// the second call writes into a buffer that is not zeroed
+					for i := range out {
+						out[i] = 0xAA
+					}
+				}
 				var salt []byte
 				if salts[in.si] != nil {
 					salt = append([]byte{}, salts[in.si]...)
